@@ -1422,6 +1422,48 @@ func handleYAMLError(err error) []*Error {
 	return []*Error{yamlErr(err.Error())}
 }
 
+// skipNodeProperties moves positions of nodes which have node properties (anchor like &foo or tag
+// like !!str) to the positions where their values start. yaml.v3 sets the position of such node to
+// the position of its first property. However positions calculated from the node position (e.g.
+// the position of ${{ }} in a string value) assume that it is the position where the value starts.
+func skipNodeProperties(n *yaml.Node, lines []string) {
+	if n.Kind != yaml.AliasNode && (n.Anchor != "" || n.Style&yaml.TaggedStyle != 0) && 0 < n.Line && n.Line <= len(lines) {
+		n.Column = columnAfterNodeProperties([]rune(lines[n.Line-1]), n.Column)
+	}
+	for _, c := range n.Content {
+		skipNodeProperties(c, lines)
+	}
+}
+
+// columnAfterNodeProperties returns the column where the value following node properties starts.
+// col is the column of the first property in the line. Both columns are 1-based and counted in
+// characters. When no value follows the properties in the line, it returns col as-is.
+func columnAfterNodeProperties(line []rune, col int) int {
+	isBlank := func(r rune) bool { return r == ' ' || r == '\t' }
+	i := col - 1
+	for i < len(line) && (line[i] == '&' || line[i] == '!') {
+		if line[i] == '!' && i+1 < len(line) && line[i+1] == '<' {
+			// Verbatim tag like !<tag:yaml.org,2002:str>
+			for i < len(line) && line[i] != '>' {
+				i++
+			}
+		}
+		for i < len(line) && !isBlank(line[i]) && !strings.ContainsRune(",[]{}", line[i]) {
+			i++
+		}
+		if i < len(line) && !isBlank(line[i]) {
+			return col // No value follows the property. The node is an empty node
+		}
+		for i < len(line) && isBlank(line[i]) {
+			i++
+		}
+	}
+	if i >= len(line) || line[i] == '#' || line[i] == '\r' {
+		return col // The value starts at one of the following lines
+	}
+	return i + 1
+}
+
 // Parse parses given source as byte sequence into workflow syntax tree. It returns all errors
 // detected while parsing the input. It means that detecting one error does not stop parsing. Even
 // if one or more errors are detected, parser will try to continue parsing and finding more errors.
@@ -1434,6 +1476,8 @@ func Parse(b []byte) (*Workflow, []*Error) {
 
 	// Uncomment for checking YAML tree
 	// dumpYAML(&n, 0)
+
+	skipNodeProperties(&n, strings.Split(string(b), "\n"))
 
 	p := &parser{}
 	w := p.parse(&n)
